@@ -248,8 +248,9 @@ def r1_tag_chain(ctx, rule, scope='all'):
     lv = loopvar or 'file'
     key_ok = lfacts.get('name') == "config.get('name') + %s.split('.')[0]" % lv
     path_ok = lfacts.get('full_path') == 'os.path.join(base_directory, directory, %s)' % lv \
-        and lfacts.get('directory') == "config.get('directory')" and lfacts.get('filenames') == "json.loads(config.get('filenames'))" \
-        and lfacts.get('loop_over') == 'filenames'
+        and lfacts.get('directory') == "config.get('directory')" and \
+        ((lfacts.get('filenames') == "json.loads(config.get('filenames'))" and lfacts.get('loop_over') == 'filenames')
+         or lfacts.get('loop_over') == "json.loads(config.get('filenames'))")
     if not key_ok or not path_ok or not cfl_ok:
         ok_all = False
         ctx.bad(rule, GIO + '_load_from_multiple_files', 'loader key/path construction %s' % lfacts,
